@@ -53,6 +53,15 @@ ATOMS_CORE = ["a", " ", "*", "_", "`", "[", "]", "(u)", "![", "](u)", "<", ">", 
               "http", "&#xFFFFFF;", "\x00"]
 
 
+# characters that str.splitlines() treats as line boundaries but Markdown does not (and LS/PS/NEL)
+SEPARATORS = ["\x0b", "\x0c", "\x1c", "\x1d", "\x1e", "\x85", "\u2028", "\u2029"]
+SEP_LEAVES = ["a" + c + "b" for c in SEPARATORS] + ["\x0c", "\u2028", "# a\x0cb", "```\nfoo\x0cbar", "    a\u2028b",
+                                                       "<div>\x85x", "a\x1d", "- a\x0bb"]
+# delimiter runs: the "rule of 3", runs that can both open and close, lone markers next to closers
+EMPH_ATOMS = ["a", "*", "**", "_", " "]
+STRIKE_ATOMS = ["[", "~~", "~", "a", "](u)", "*", " "]
+
+
 def strings_with_first(first, atoms, L):
     for k in range(0, L):
         for combo in itertools.product(atoms, repeat=k):
